@@ -1,5 +1,7 @@
 """C17: queries pure, contexts independent, reset clean; theorems in coq/theories/Properties/C17.v"""
-from . import edcommon, edoracles
+import os
+
+from . import capicommon, edcommon, edoracles
 
 PROP = "C17"
 RULE = ("seeded generated editor histories in which query calls (`get n`: every public query function, n times) are "
@@ -10,9 +12,40 @@ RULE = ("seeded generated editor histories in which query calls (`get n`: every 
         "changing the buffer >= 2 times")
 
 
+C17_SIGNATURES = ("repeated-query-differs", "queries-changes-results", "queries-changes-final-state",
+                  "other-context-changes-results", "other-context-changes-final-state",
+                  "other-thread-changes-results", "other-thread-changes-final-state", "reset-differs-from-fresh")
+
+
+def capi_part(res, st, tier, work):
+    """paired executions through the C API (vharness `capi`): full / bare / random query calls, alone vs
+    interleaved with another context (also from a second thread), reset vs fresh"""
+    fails = []
+    if not capicommon.build(st):
+        return fails
+    summary, corpus = capicommon.run(tier, os.path.join(work, "capi"))
+    if summary is None:
+        st["broken"].append({"obligation": "capi harness run", "detail": corpus})
+        return fails
+    res.coverage["evaluations"] += summary.get("ops", 0)
+    res.coverage["traces_validated_against_impl"] += summary.get("variants", 0)
+    res.notes["capi"] = {k: summary.get(k) for k in ("cases", "ops", "variants", "crashes", "hangs", "workers_spawned", "wall_s")}
+    for f in summary.get("failures", []):
+        if f["signature"] in C17_SIGNATURES:
+            fails.append({"signature": "capi-" + f["signature"], "detail": f["detail"], "case_lines": [], "ops": f["ops"]})
+    return fails
+
+
 def run(tier):
-    return edcommon.run_check(PROP, tier, edoracles.c17, RULE, edcommon.ED_ASSUMPTIONS)
+    return edcommon.run_check(PROP, tier, edoracles.c17, RULE + "; plus seeded C-API histories executed in paired variants "
+                              "(every query after every op twice / no queries / random queries; alone / interleaved with a second "
+                              "context / second context on another thread; reset vs fresh context with the same configuration)",
+                              edcommon.ED_ASSUMPTIONS, extra=capi_part)
 
 
 def replay(path):
+    import json
+    r = json.load(open(path))
+    if r.get("ops"):
+        return capicommon.replay(path)
     return edcommon.replay(path)
